@@ -461,3 +461,13 @@ func (sp *Space) Judge(seq []int, ai int, want Verdict, got bool) (string, strin
 	}
 	return "false-positive/list:" + ShapeName[(want.Key>>6)&7], fmt.Sprintf("list %q: address %s is reported as contained, but none of the prefixes covers it", sp.Texts(seq), a)
 }
+
+// Cost orders counterexamples: shorter sequences first, then universe order
+// (the driver keeps the cheapest violation per signature across shards).
+func Cost(seq []int) int {
+	c := len(seq)
+	for _, i := range seq {
+		c = c*1024 + i
+	}
+	return c
+}
